@@ -39,9 +39,13 @@ SCALARS_T = list(L.SC)
 STRUCTS = list(L.STRUCT_ORDER)
 
 TIERS = {
-    "quick": {"fmt_cfgs": ["BufFmt_q1", "BufFmt_q2", "BufFmt_q3"], "hangs": 3, "crashes": 120, "timeout": 900, "min_cases": 8000},
-    "thorough": {"fmt_cfgs": ["BufFmt_t1", "BufFmt_t2", "BufFmt_t3", "BufFmt_t4"], "hangs": 12, "crashes": 2000, "timeout": 2400, "min_cases": 100000},
+    "quick": {"fmt_cfgs": ["BufFmt_q1", "BufFmt_q2", "BufFmt_q3"], "geom_cfg": "BufGeom_quick", "hangs": 3, "crashes": 120, "timeout": 900, "min_cases": 8000},
+    "thorough": {"fmt_cfgs": ["BufFmt_t1", "BufFmt_t2", "BufFmt_t3", "BufFmt_t4"], "geom_cfg": "BufGeom_thorough", "hangs": 12, "crashes": 2000, "timeout": 2400, "min_cases": 100000},
 }
+
+GEOM_ACTIONS = ["Transpose", "Second", "Reverse", "Broadcast", "PadRows", "Indirect"]
+GEOM_NEEDED = ["ok", "rejected", "ndim-mismatch", "indirect", "empty", "c-contiguous", "f-contiguous", "neither", "negative-stride", "zero-stride"]
+GEOM_BASE = 256          # element of the raw bytes where offset 0 of the model's base lies
 
 ACTIONS = ["Subst", "Insert", "InsertEnd", "Delete", "WrapAll", "WrapOne", "Repeat2", "Tack"]
 NEEDED = ["v:compatible", "v:incompatible", "v:unspecified", "ir:accept", "ir:reject", "ir:crash", "ir:hang",
@@ -110,6 +114,34 @@ def judge(v, ob, want_values):
     return "exception" if v == "compatible" else None
 
 
+def geom_classes(gcases):
+    c = collections.Counter()
+    for g in gcases:
+        c["ok" if g["ok"] else "rejected"] += 1
+        if len(g["decl"]) != len(g["shape"]):
+            c["ndim-mismatch"] += 1
+        if any(g["ind"]):
+            c["indirect"] += 1
+        n = 1
+        for d in g["shape"]:
+            n *= d
+        if n == 0:
+            c["empty"] += 1
+        c["c-contiguous" if g["c"] else "not-c"] += 1
+        c["f-contiguous" if g["f"] else "not-f"] += 1
+        if not g["c"] and not g["f"]:
+            c["neither"] += 1
+        if any(x < 0 for x in g["strides"]):
+            c["negative-stride"] += 1
+        if any(x == 0 for x in g["strides"]):
+            c["zero-stride"] += 1
+    return dict(c)
+
+
+def geom_values(els):
+    return [struct.unpack_from("=i", L.RAW, (GEOM_BASE + e) * 4)[0] for e in els]
+
+
 def fmt_oracle(cases, rep):
     """P for the layout of every distinct format: NumPy's reader and struct.calcsize against the spec's leaves"""
     seen = {}
@@ -144,6 +176,37 @@ def fmt_oracle(cases, rep):
     return dict(stats)
 
 
+def _dev_cached(kind, key, make):
+    """development only (C17_DEV_CACHE=<dir>): reuse TLC results / the built module while the check is being written"""
+    cache = os.environ.get("C17_DEV_CACHE")
+    if not cache:
+        return make()
+    import pickle
+    fn = os.path.join(cache, "%s_%s.pkl" % (kind, key))
+    if os.path.exists(fn):
+        with open(fn, "rb") as f:
+            return pickle.load(f)
+    r = make()
+    if getattr(r, "ok", False):
+        os.makedirs(cache, exist_ok=True)
+        with open(fn, "wb") as f:
+            pickle.dump(r, f)
+    return r
+
+
+def _tlc(module, cfg, **kw):
+    key = "%s_%d_%d" % (cfg, os.path.getmtime(os.path.join(core.SPEC, module + ".tla")), os.path.getmtime(os.path.join(core.SPEC, cfg + ".cfg")))
+    return _dev_cached("tlc", key, lambda: core.tlc(module, cfg=cfg, **kw))
+
+
+def _build(src):
+    import hashlib
+    if os.environ.get("C17_DEV_CACHE"):
+        d = os.path.join(os.environ["C17_DEV_CACHE"], "build_" + hashlib.sha1((src + core.REPO).encode()).hexdigest()[:12])
+        return _dev_cached("build", os.path.basename(d), lambda: core.build_many([core.BuildSpec("c17m", src)], d, 1)[0])
+    return core.build_many([core.BuildSpec("c17m", src)], core.subdir("c17build"), 1)[0]
+
+
 def run(tier, seed):
     t0 = time.time()
     rng = random.Random(seed)
@@ -156,11 +219,13 @@ def run(tier, seed):
     # ------------------------------------------------------------------ model checking (+ the build, concurrently)
     nw = max(2, core.NCPU // len(T["fmt_cfgs"]))
     with concurrent.futures.ThreadPoolExecutor(max_workers=len(T["fmt_cfgs"]) + 2) as ex:
-        bfut = ex.submit(core.build_many, [core.BuildSpec("c17m", src)], core.subdir("c17build"), 1)
-        futs = [(cfg, ex.submit(core.tlc, "BufFmt", cfg=cfg, workers=nw, timeout=T["timeout"], deadlock=False, coverage=True,
+        bfut = ex.submit(_build, src)
+        gfut = ex.submit(_tlc, "BufGeom", T["geom_cfg"], workers=2, timeout=T["timeout"], deadlock=False, coverage=True)
+        futs = [(cfg, ex.submit(_tlc, "BufFmt", cfg, workers=nw, timeout=T["timeout"], deadlock=False, coverage=True,
                                 heap="4g" if tier == "thorough" else None)) for cfg in T["fmt_cfgs"]]
         results = [(cfg, f.result()) for cfg, f in futs]
-        build = bfut.result()[0]
+        build = bfut.result()
+        gres = gfut.result()
     cases, dtypes = [], {}
     states = distinct = 0
     actcov = collections.Counter()
@@ -182,7 +247,22 @@ def run(tier, seed):
             core.die("%s: %d cases published for %d distinct states" % (cfg, ncase, r.distinct))
         for a, (d, _) in r.coverage.items():
             actcov[a] += d
-    log(t0, "TLC done: %d states, %d cases, %d dtypes" % (states, len(cases), len(dtypes)))
+    cov["tlc"].append(dict(gres.summary(), config=T["geom_cfg"]))
+    if not gres.ok:
+        sys.stderr.write(gres.out[-6000:])
+        core.die("TLC failed (%s): %s" % (gres.violation or gres.rc, gres.cmd))
+    gcases = gres.printed
+    if len(gcases) != gres.distinct:
+        core.die("%s: %d cases published for %d distinct states" % (T["geom_cfg"], len(gcases), gres.distinct))
+    states += gres.generated
+    distinct += gres.distinct
+    gdead = [a for a in GEOM_ACTIONS if not gres.coverage.get(a, (0, 0))[0]]
+    gkl = geom_classes(gcases)
+    cov["geometry_action_coverage"] = {a: gres.coverage.get(a, (0, 0))[0] for a in GEOM_ACTIONS}
+    cov["geometry_case_classes"] = gkl
+    if gdead or [k for k in GEOM_NEEDED if not gkl.get(k)]:
+        core.die("vacuous geometry model: actions %s, classes %s" % (gdead, [k for k in GEOM_NEEDED if not gkl.get(k)]))
+    log(t0, "TLC done: %d states, %d format cases, %d dtypes, %d geometry cases" % (states, len(cases), len(dtypes), len(gcases)))
     cov["action_coverage"] = {a: actcov.get(a, 0) for a in ACTIONS}
     dead = [a for a in ACTIONS if not actcov.get(a)]
     if dead:
@@ -250,6 +330,21 @@ def run(tier, seed):
                 for mode, isz, v, ir in modes:
                     calls.append(["%s_%s" % (path, cid), t, isz, [L.NITEMS], None, 0, None, risky])
                     meta.append((ci, cid, path, mode, isz, v, ir))
+    # part G: the exporter of every geometry case, acquired through the declared axes
+    for gi, g in enumerate(gcases):
+        key = "+".join(g["decl"])
+        mvf, bff = L.GEOM_DECL[key]
+        sub = [0 if x else -1 for x in g["ind"]] if any(g["ind"]) else None
+        args = ["i", 4, g["shape"], [x * 4 for x in g["strides"]], (GEOM_BASE + g["off"]) * 4, sub, False]
+        v = "compatible" if g["ok"] else "incompatible"
+        calls.append([mvf] + args)
+        meta.append(("G", gi, "mv", v))
+        if bff and sub is None:
+            calls.append([bff] + args)
+            meta.append(("G", gi, "bf", v))
+        if sub is None and len(g["shape"]) >= 1:
+            calls.append(["P_geom"] + args)
+            meta.append(("GP", gi, "P", v))
     log(t0, "%d calls planned" % len(calls))
     # risky calls (forked) last within their chunk is not needed: each is isolated
     nchunks = max(1, min(8, len(calls) // 5000))
@@ -270,10 +365,37 @@ def run(tier, seed):
     fidelity = collections.Counter()
     unbalanced = 0
     pvals = collections.Counter()
-    for call, (ci, cid, path, mode, isz, v, ir), ob in zip(calls, meta, obs):
-        r = cases[ci]
+    n_geom = 0
+    for call, m, ob in zip(calls, meta, obs):
         if ob is None:
             core.die("no observation for %r" % (call,))
+        if m[0] in ("G", "GP"):
+            g = gcases[m[1]]
+            want = geom_values(g["els"])
+            if m[0] == "GP":       # CPython's memoryview of the same exporter
+                empty = 0 in g["shape"]    # the memoryview object's flags of an empty buffer follow its strides, PyBuffer_IsContiguous does not
+                if ob[0] != "ok" or (ob[1][2:] if empty else ob[1]) != ([] if empty else [g["c"], g["f"]]) + want:
+                    rep.spec_drift("geometry: spec vs CPython's memoryview (contiguity flags, elements)",
+                                   {"case": {k: g[k] for k in ("shape", "strides", "off")}, "spec": [g["c"], g["f"]] + want, "memoryview": ob})
+                continue
+            n_exec += 1
+            n_geom += 1
+            per["geometry-" + m[2] + ":" + m[3]] += 1
+            if g["nops"]:
+                nontrivial.add((call[0], json.dumps(call[3:7])))
+            fidelity["same" if (ob[0] == "ok") == g["iok"] else "differs"] += 1
+            bad = judge(m[3], ob, want)
+            if bad is None:
+                if len(matched) < 5000:
+                    matched.append((m[3], ob, want))
+                continue
+            rep.disagree({"part": "geometry", "decl": "+".join(g["decl"]), "path": m[2], "ref": m[3], "model": "accept" if g["iok"] else "reject",
+                          "indirect": any(g["ind"]), "ndim": len(g["shape"])}, bad,
+                         {"shape": g["shape"], "strides_in_items": g["strides"], "offset_in_items": g["off"], "indirect": g["ind"],
+                          "call": call[:7], "expected": [m[3], want], "observed": ob})
+            continue
+        ci, cid, path, mode, isz, v, ir = m
+        r = cases[ci]
         n_exec += 1
         per[path + ":" + v] += 1
         want = L.decode(dcanon[r["dt"]], isz) if v != "incompatible" else None
@@ -313,6 +435,8 @@ def run(tier, seed):
     n_demo = 0
     for v, ob, want in demo:
         if ob[0] == "ok":
+            if not want:
+                continue
             w2 = list(want)
             j = rng.randrange(len(w2))
             w2[j] = (w2[j] + 1) if isinstance(w2[j], int) else "0x1.8p+1"
@@ -329,7 +453,8 @@ def run(tier, seed):
     cov.update({
         "states": states, "distinct_states": distinct, "transitions": states,
         "traces_validated_against_impl": n_exec, "evaluations": n_exec, "distinct_nontrivial": len(nontrivial),
-        "cases_published": len(cases), "executed_per_path_and_verdict": dict(per),
+        "cases_published": len(cases) + len(gcases), "format_cases": len(cases), "geometry_cases": len(gcases),
+        "geometry_executions": n_geom, "executed_per_path_and_verdict": dict(per),
         "predicted_hangs_not_executed": skipped_hangs, "predicted_crashes_not_executed": skipped_crashes, "transcription_vs_code": dict(fidelity),
         "acquisitions_with_unbalanced_release": unbalanced, "value_oracle": dict(pvals), "binding_selftest_cases": n_demo,
         "dtypes": sorted(dtypes), "c_types": [cid for cid, _ in ids], "exhaustive": True,
